@@ -205,8 +205,13 @@ def tlc_trace(module, cfg, trace, wd, env=None, timeout=1800, name=None, depth_f
         e.update(env)
     r = run_tlc(module, cfg, wd, env=e, workers=1, timeout=timeout, depth_first=depth_first)
     if not os.path.exists(outp):
-        log(strip_tlc(r["out"])[-3000:])
-        raise ToolError(f"TLC produced no result for {module}")
+        # keep what TLC said: the head names the error, the tail (a state dump) can be huge
+        t = strip_tlc(r["out"])
+        with open(f"{WORK}/tlc-{name or module}-failed.log", "w") as f:
+            f.write(t[:20000] + "\n...\n" + t[-5000:])
+        errs = [ln for ln in t.splitlines() if re.match(r"^(Error|\s*Caused by|java\.|Exception)", ln)]
+        log("\n".join(errs[:12]) or t[-3000:])
+        raise ToolError(f"TLC produced no result for {module}" + (": " + errs[0][:300] if errs else ""))
     with open(outp) as f:
         res = json.load(f)
     res["_tlc"] = r
